@@ -5,6 +5,7 @@ from cuqi.density import Density, EvaluatedDensity
 from cuqi.distribution import Distribution, Posterior
 from cuqi.likelihood import Likelihood
 from cuqi.geometry import Geometry, _DefaultGeometry1D
+from cuqi.utilities import approx_gradient
 import numpy as np # for splitting array. Can avoid.
 
 class JointDistribution:
@@ -373,6 +374,10 @@ class MultipleLikelihoodPosterior(JointDistribution, Distribution):
 
     def gradient(self, *args, **kwargs):
         """ Return the gradient of the un-normalized log density function. """
+        # Use FD approximation if requested (as Density.gradient does)
+        # (the FD attributes only exist once enable_FD/disable_FD was called on this class)
+        if getattr(self, '_FD_enabled', False):
+            return approx_gradient(self.logd, *args, **kwargs, epsilon=self.FD_epsilon)
         return sum(density.gradient(*args, **kwargs) for density in self._densities)      
 
     def _sample(self, Ns=1):
